@@ -298,6 +298,56 @@ func c13(p *core.Program, r *core.Report) {
 		{"xy/internal", "(*CoordStack).Peek", "all"},
 	})
 
+	const r4 = "fresh-arrays-fully-written"
+	r.Rule(r4, "every non-empty make([]float64, n) in the hull code is completely overwritten from input coordinates before use: it is the target of a store indexed by an element counter bounded by its own length, or by base+k with a stride-stepped loop covering [0, len) - zero-initialised slots must never be read as coordinates (they would add the point (0,0) to the hull)", 2)
+	all := strideInfo(p)
+	for _, fn := range pkgFuncs(p, "xy") {
+		if !strings.Contains(short(fn), "convexHullCalculator") {
+			continue
+		}
+		si := all[fn]
+		for _, b := range fn.Blocks {
+			for _, in := range b.Instrs {
+				mk, ok := in.(*ssa.MakeSlice)
+				if !ok || !isFloatSlice(mk.Type()) {
+					continue
+				}
+				if n, isC := eng.ConstInt(mk.Len); isC && n == 0 {
+					continue
+				}
+				key := fmt.Sprintf("%s/make", short(fn))
+				full := false
+				for _, s := range si.Sites {
+					if !s.Store || s.Array != ssa.Value(mk) {
+						continue
+					}
+					if s.Val.E {
+						// element counter bounded by len of this very array?
+						if ia, ok := s.Instr.(*ssa.IndexAddr); ok {
+							for _, rf := range eng.Referrers(ia.Index) {
+								if bo, ok := rf.(*ssa.BinOp); ok && bo.Op == token.LSS {
+									if lc, ok := bo.Y.(*ssa.Call); ok && eng.BuiltinName(lc) == "len" && lc.Call.Args[0] == ssa.Value(mk) {
+										full = true
+									}
+								}
+							}
+						}
+					}
+					if s.Val.K && s.Val.C == 0 {
+						for _, fp := range si.LoopFootprints() {
+							if fp.OK {
+								if lc, ok := fp.BoundBase.(*ssa.Call); ok && eng.BuiltinName(lc) == "len" && lc.Call.Args[0] == ssa.Value(mk) && fp.InitBase == nil {
+									full = true
+								}
+							}
+						}
+					}
+				}
+				r.Check(full, r4, key, p.Pos(mk.Pos()), true, "every slot is written by a loop covering the whole array", "a freshly made coordinate array is not provably overwritten slot by slot: zero-filled padding is read as the coordinate (0,0) and becomes a hull vertex that is not an input point")
+			}
+		}
+	}
+
 	const r3 = "ring-closed-before-test"
 	r.Rule(r3, "the ring predicates document `ring must have first point identical to last point`; at every call of IsPointInRing / LocatePointInRing inside the library whose ring is built by library code, the argument is closed on every path: append(X, X[:stride]...), or X on the edge where Equal(X,0,X,len(X)-stride) holds, or a helper all of whose returns are closed (a recogniser of the closing idioms, not a proof: an unrecognised construction is reported as undecided)", 1)
 	n := 0
@@ -485,5 +535,6 @@ func c20(p *core.Program, r *core.Report) {
 		r.Check(idOK, r1, "xy.SimplifyFlatCoords/identity-small", p.Pos(fn.Pos()), true, "size < 3 returns ret[i] = i", "the size < 3 path does not return the identity")
 	}
 	strideRule(p, r, "stride-discipline", []strideTarget{{"xy", "dpWorker", "all"}, {"xy", "distanceFromSegmentSquared", "xy"}, {"xy", "SimplifyFlatCoords", "all"}})
-	r.Assume("the threshold bound on omitted points and idempotence depend on runtime numbers and are not decided")
+	clampedProjectionRule(p, r, "segment-distance-clamped", [][2]string{{"xy", "distanceFromSegmentSquared"}})
+	r.Assume("the threshold bound on omitted points and idempotence depend on runtime numbers and are not decided beyond the clamp structure of the distance kernel")
 }
